@@ -70,6 +70,10 @@ def RepeaterPlaceholder(token: tokens.RepeaterPlaceholder, state):
     return state.get_text(repeater.value) if repeater else None
 
 
+def Repeater(token: tokens.Repeater, state):
+    return '*' if token.implicit else '*%d' % token.count
+
+
 def RepeaterNumber(token: tokens.RepeaterNumber, state):
     value = 1
     last_ix = len(state.repeaters) - 1
